@@ -79,6 +79,24 @@ def r07_8_materialize_as(ctx: Ctx, rule: str = "R07.8") -> None:
                 run.ok(rule, inst)
             else:
                 run.fail(rule, inst, f"the {arm} arm reports persisted = `{flag}`", fi=f, node=p.node)
+            # a flag taken from a recursive result describes *that* result: the relation handed back with it must be (built from) it
+            b = env_at(p).get(flag)
+            if isinstance(b, tuple) and b[0] == "unpack" and isinstance(b[1], ast.Call) and call_attr(b[1]) == "_process_recursive":
+                partners = {n for n, bb in env_at(p).items() if isinstance(bb, tuple) and bb[0] == "unpack" and bb[1] is b[1] and bb[2] == 0}
+                others = {n for n, bb in env_at(p).items() if isinstance(bb, tuple) and bb[0] == "unpack" and bb[1] is not b[1] and bb[2] == 0 and isinstance(bb[1], ast.Call) and call_attr(bb[1]) == "_process_recursive"}
+                used = {n.id for n in ast.walk(p.value.elts[0]) if isinstance(n, ast.Name)}
+                inst = f"{arm}:flag-partner:path{i}"
+                if used & partners and not used & others:
+                    run.ok(rule, inst)
+                else:
+                    run.fail(
+                        rule,
+                        inst,
+                        f"the {arm} arm returns `{src(p.value.elts[0])[:50]}` together with `{flag}`, the persisted flag of a different processed operand ({sorted(partners)}): "
+                        "an enclosing Materialization then takes a payload from (or skips the materialize hook for) the wrong relation",
+                        fi=f,
+                        node=p.node,
+                    )
 
 
 def r07_11_operands_processed(ctx: Ctx, rule: str = "R07.11") -> None:
